@@ -6,7 +6,7 @@
     rd = 1; [vM]: the same on block values). *)
 From Coq Require Import ZArith List Bool Lia.
 From Hts Require Import Base.Prim Model.Flat Model.Reader Model.ChunkReader
-  Proofs.ReaderFlat Proofs.ChunkReaderProof Proofs.ClientSim Proofs.BamReplay.
+  Proofs.ReaderFlat Proofs.ChunkReaderProof Proofs.ClientSim Proofs.BamReplay Proofs.IterReplay Proofs.ChunkReaderTerm.
 Import ListNotations.
 Open Scope Z_scope.
 
@@ -20,9 +20,9 @@ Open Scope Z_scope.
     that error is io.EOF, the bytes returned so far are a prefix of the
     concatenated flat spans [tr Begin, tr End) of the chunks, and when io.EOF is
     reported nothing is left: the stream is exactly the spans.
-    Partial: that io.EOF is reached after finitely many reads with non-empty
-    buffers is not proved (a measure argument over chunks/blocks is missing);
-    the correspondence runs observe it. *)
+    (Named _partial for history: termination is the separate theorem
+    chunkreader_terminates below; together they are the full statement for
+    addressable files.) *)
 Theorem chunkreader_exact_partial :
   forall (F : file) (ch : list nat) (cs : list chunk) (bufs : list Z),
     wf_file F = true -> F <> [] -> addressable F = true ->
@@ -32,6 +32,21 @@ Theorem chunkreader_exact_partial :
       exists tail, spans F cs = concat (map fst l) ++ tail /\ reads_ok l tail.
 Proof. exact chunkreader_exact_r. Qed.
 Print Assumptions chunkreader_exact_partial.
+
+(** Termination: every Read with a non-empty buffer returns bytes, or moves
+    to a later block, or leaves a chunk behind ([progress]); so with buffers of
+    size >= 1, after at most (chunks + 1) * (bytes owed + 1) * (members + 1)
+    reads the ChunkReader has reported io.EOF, and by then it has delivered
+    exactly the concatenated spans. *)
+Theorem chunkreader_terminates :
+  forall (F : file) (ch : list nat) (cs : list chunk) (bufs : list Z),
+    wf_file F = true -> F <> [] -> addressable F = true ->
+    sorted_from F 0 cs -> Forall (fun n => 1 <= n) bufs ->
+    (Z.of_nat (length cs) + 1) * ((zlen (spans F cs) + 1) * (Z.of_nat (length F) + 1)) <= Z.of_nat (length bufs) ->
+    exists s1 l, cr_new (rM F ch) (fst (r_init F)) cs = Ok (s1, eNil) /\
+      cr_reads (rM F ch) s1 cs bufs = Ok l /\ snd (last l ([], 0)) = eEOF /\ concat (map fst l) = spans F cs.
+Proof. exact chunkreader_terminates_r. Qed.
+Print Assumptions chunkreader_terminates.
 
 (** The same on the reader on block values. *)
 Theorem chunkreader_exact_value_partial :
@@ -82,6 +97,22 @@ Theorem chunk_replay :
           exists b3 l, br_readall (vM F) (S (length mid)) b2 = Ok (b3, l, BEOF) /\ map fst l = map fst rm.
 Proof. exact chunk_replay_proof. Qed.
 Print Assumptions chunk_replay.
+
+(** bam.Iterator (NewIterator + Next until false), same level and hypothesis:
+    for any non-empty list of chunks each running from the Begin of a record
+    to the End of a later record ([rchunk_ok]: the chunk's ends are the canonical
+    offsets of flat positions p and pe, with frames of sizes [rc_sizes] between
+    them) - in ANY order, overlapping or repeated -, and any reader state that is
+    not Blocked: the iteration yields the bodies of the first chunk's records,
+    then those of the second, ..., and ends with io.EOF after exactly that many
+    records. *)
+Theorem iterator_replay :
+  forall (F : file), wf_file F = true -> addressable F = true ->
+  forall (b : bstate (vM F)) (L : list rchunk),
+    simok F (br_s _ b) -> Forall (rchunk_ok F) L -> L <> [] ->
+    exists b', it_run (vM F) (S (nrecs L)) b (map rc_c L) = Ok (b', all_bodies F L, eEOF).
+Proof. exact iterator_replay_proof. Qed.
+Print Assumptions iterator_replay.
 
 (** The offset recorded as End after a read that returned bytes is canonical:
     it is determined by the flat position alone (the block holding the last
